@@ -60,6 +60,7 @@ class TlcResult:
         self.cmd = ''
         self.dump = None
         self.timed_out = False
+        self.printed = None
 
     @property
     def ok(self):
@@ -75,7 +76,7 @@ _RE_COV = re.compile(r'^<(\w+) line \d+, col \d+ to line \d+, col \d+ of module 
 
 def run_tlc(spec, cfg_text, *, workers=None, dump=False, simulate=None, depth=None,
             seed_=None, coverage=False, timeout=1800, env=None, extra=None, deque=False,
-            keep_dir=False):
+            keep_dir=False, printed=False):
     """Run TLC on /verif/specs/<spec>.tla with the given cfg text.
 
     simulate: dict(num=..., file=<prefix or None>) -> `-simulate`.
@@ -118,12 +119,30 @@ def run_tlc(spec, cfg_text, *, workers=None, dump=False, simulate=None, depth=No
     if env:
         e.update(env)
     t0 = time.time()
-    try:
+    if printed:
+        # the spec prints one `"XDV ..."` line per case (PrintT of ToString): keep them in a file, the rest in memory
+        res.printed = os.path.join(work, 'tlc.out')
+        with open(res.printed, 'w') as fo:
+            try:
+                p = subprocess.run(cmd, cwd=SPECS, env=e, stdout=fo, stderr=subprocess.STDOUT, timeout=timeout)
+                res.returncode = p.returncode
+            except subprocess.TimeoutExpired:
+                res.timed_out = True
+                res.returncode = -9
+                subprocess.run(['pkill', '-f', meta], check=False)
+        keep = []
+        with open(res.printed, errors='replace') as fi:
+            for line in fi:
+                if not line.startswith('"XDV '):
+                    keep.append(line)
+        res.stdout = ''.join(keep[-4000:])
+    else:
+      try:
         p = subprocess.run(cmd, cwd=SPECS, env=e, stdout=subprocess.PIPE, stderr=subprocess.STDOUT,
                            timeout=timeout, text=True)
         res.returncode = p.returncode
         res.stdout = p.stdout
-    except subprocess.TimeoutExpired as ex:
+      except subprocess.TimeoutExpired as ex:
         res.timed_out = True
         res.returncode = -9
         out = ex.stdout
@@ -157,6 +176,14 @@ def run_tlc(spec, cfg_text, *, workers=None, dump=False, simulate=None, depth=No
         idx = res.stdout.find('Error:')
         res.error = res.stdout[idx:idx + 2000] if idx >= 0 else ('TLC exit %s\n' % res.returncode) + res.stdout[-2000:]
     return res
+
+
+def iter_printed(res):
+    """yield the raw TLA+ value text of every `"XDV <value>"` line TLC printed"""
+    with open(res.printed, errors='replace') as fi:
+        for line in fi:
+            if line.startswith('"XDV '):
+                yield line[5:].rstrip('\n')[:-1].replace('\\"', '"')
 
 
 def tlc_must_pass(res, what):
@@ -255,12 +282,16 @@ class Outcome:
         blob = json.dumps({'property': self.prop, 'signature': case_sig, 'detail': detail}, indent=1, sort_keys=True, default=str)
         h = hashlib.sha1(blob.encode()).hexdigest()[:12]
         path = os.path.join(REPLAYS, '%s-%s.json' % (self.prop, h))
-        if len(self.violations) < 25:
+        sk = json.dumps(case_sig, sort_keys=True, default=str)
+        self._per_sig = getattr(self, '_per_sig', {})
+        paths = self._per_sig.setdefault(sk, [])
+        if len(paths) < 4 and len(self._per_sig) <= 12:
             with open(path, 'w') as f:
                 f.write(blob)
+            paths.append(path)
             self.violations.append((path, case_sig))
         else:
-            self.violations.append((self.violations[0][0], case_sig))
+            self.violations.append(((paths or self.violations[0:1] and [self.violations[0][0]])[0], case_sig))
         return True
 
     def finish(self, level='model_checking'):
